@@ -36,6 +36,13 @@
 
 #include "verif.hpp"
 
+// libubsan has its own copy of the sanitizer runtime: a fatal UBSan report does not run the death callback the engine
+// registers with ASan.  This weak hook is called by libubsan before it prints a report (all reports are fatal here:
+// -fno-sanitize-recover), so the in-flight case still reaches the fragment.
+#if !defined(VF_HAS_UBSAN_HOOK)
+extern "C" void __ubsan_on_report(void) { vf::on_death(); }
+#endif
+
 namespace {
 
 using i128 = __int128;
